@@ -33,8 +33,8 @@ func init() {
 			{"newSessionGuards", "round.NewSession: conditions that refuse the parameters", guardsIn("internal/round/helper.go", "NewSession")},
 			{"hashForID", "Helper.HashForID", callsIn("internal/round/helper.go", "Helper.HashForID", `WriteAny|Clone`)},
 			{"messageHash", "protocol.Message.Hash: the items hashed", callsArgsOrMissing("pkg/protocol/message.go", "Message.Hash", `^hash\.New$`)},
-			{"canAcceptGuards", "MultiHandler.CanAccept refusal conditions", guardsIn("pkg/protocol/handler.go", "MultiHandler.CanAccept")},
-			{"twoPartyCanAcceptGuards", "TwoPartyHandler.CanAccept refusal conditions", guardsIn("pkg/protocol/twoparty.go", "TwoPartyHandler.CanAccept")},
+			{"canAcceptGuards", "MultiHandler.CanAccept refusal conditions", guardsIn("pkg/protocol/handler.go", "MultiHandler.canAccept")},
+			{"twoPartyCanAcceptGuards", "TwoPartyHandler.CanAccept refusal conditions", guardsIn("pkg/protocol/twoparty.go", "TwoPartyHandler.canAccept")},
 			{"multiHandlerLocks", "first two statements of every exported MultiHandler method", lockTable("pkg/protocol/handler.go", "MultiHandler")},
 			{"twoPartyHandlerLocks", "first two statements of every exported TwoPartyHandler method", lockTable("pkg/protocol/twoparty.go", "TwoPartyHandler")},
 			{"multiHandlerStop", "MultiHandler.Stop: guards and calls", append(guardsIn("pkg/protocol/handler.go", "MultiHandler.Stop"), callsIn("pkg/protocol/handler.go", "MultiHandler.Stop", `abort`)...)},
